@@ -370,6 +370,8 @@ class Emitter {
 				addConst(o, BO);
 			}
 			o["op"] = BO->getOpcodeStr().str();
+			if (BO->isShiftOp()) // width and signedness a shift is evaluated in (casts are not kept as nodes)
+				o["t"] = typeStr(BO->getType().getCanonicalType());
 			o["lhs"] = SUB(BO->getLHS());
 			o["rhs"] = SUB(BO->getRHS());
 			return std::move(o);
